@@ -548,7 +548,9 @@ pub fn gen_c07(rng: &mut Rng, _i: u64, tier: Tier) -> Script {
     s.set("clauses", CL_C07);
     s.set("probe", rng.chance(1, 4) as i64);
     let sweep = rng.chance(6, 10);
-    let target = if sweep { rng.range(0, if tier == Tier::Thorough { 900 } else { 500 }) } else { small_target(rng, tier) };
+    // two-dimensional sweeps (pairs of cuts, cut x budget) on very short streams
+    let sweep2 = sweep && rng.chance(1, 8);
+    let target = if sweep2 { rng.range(0, 70) } else if sweep { rng.range(0, if tier == Tier::Thorough { 900 } else { 500 }) } else { small_target(rng, tier) };
     let (stream, vs) = some_stream(rng, zlib, target, &mut s);
     let n_in = stream.len() + 8;
     if sweep && stream.len() <= 700 {
@@ -577,6 +579,19 @@ pub fn gen_c07(rng: &mut Rng, _i: u64, tier: Tier) -> Script {
             _ => {
                 s.set("family", 5);
                 s.set("sweep_budget", rng.pick(&[1i64, 1, 2, 3, 4, 5, 7, 257, 258, 259, 260]));
+            }
+        }
+        if sweep2 && stream.len() <= 90 {
+            if ring && s.c("ring_bits") < 7 {
+                // a 2-byte ring multiplies the number of calls of every grid point
+                s.set("ring_bits", 7);
+            }
+            if rng.chance(1, 2) {
+                s.set("family", 6);
+            } else {
+                s.set("family", 7);
+                let pl = vs.as_ref().map(|v| v.plain_len).unwrap_or(200);
+                s.set("sweep_step", (pl as i64 / 150).max(1));
             }
         }
         s.set("hasmore", rng.pick(&[0i64, 0, 0, 0, 1]));
